@@ -226,6 +226,9 @@ def trees(tier, seed):
             (["bin", "+", ["case", [[["bin", ">", A, B], A], [["lit", True], B]]], ["lit", 1]], "case"),
             (["neg", ["neg", A]], "unary"), (["not", ["not", A]], "unary"), (["neg", ["lit", 2]], "unary"), (["bin", "-", A, ["neg", B]], "unary"),
             (["bin", "**", ["neg", ["lit", 2]], ["lit", 2]], "unary"), (["neg", ["bin", "**", ["lit", 2], ["lit", 2]]], "unary")]
+    # depth-3 families: the child of a parenthesis-forcing parent has compound operands on both sides
+    quads = gexpr.all_quads() if tier == "quick" else gexpr.all_quads(gops=[o for o in gexpr.BINOPS if o != "~="])
+    out += [(e, "quad") for _, e in quads]
     n = 6000 if tier == "quick" else 60000
     for _ in range(n):
         out.append((gexpr.random_tree(rng, rng.randint(2, 4)), "random"))
@@ -261,12 +264,13 @@ def run(tier, seed):
     run.coverage = {
         "evaluations": obs.get("parse_checks", 0) + obs.get("value_checks", 0),
         "distinct_nontrivial": obs.get("structs", 0),
-        "rule": "every (parent, child, side) triple over the 17 binary operators (578) and every unary/binary adjacency, null-comparison, constant-folding and case pattern, plus random trees of depth <= 4, each printed with minimal parentheses per the documented table and fully parenthesised; "
+        "rule": "every (parent, child, side) triple over the 17 binary operators (578) and every unary/binary adjacency, null-comparison, constant-folding and case pattern, every depth-3 'quad' (parent or unary) x child x (left grandchild operator | leaf) x (right grandchild operator | leaf) x side with the grandchild operators drawn from one representative per precedence class (quick) or all 16 executable operators (thorough), plus random trees of depth <= 4, each printed with minimal parentheses per the documented table and fully parenthesised; "
                 "parse oracle: the parser must read the text back as the same tree; value oracle: the emitted SQL (sqlite, generic) evaluated on a %d-row domain table (NULL, negatives, zero, ints, floats) must equal the tree's value row by row; distinct non-trivial = distinct tree structures (operators + leaf kinds)" % len(ROWS),
         "binary_triples_covered": len(bin_triples), "binary_triples_total": 17 * 17 * 2,
         "all_adjacency_triples_covered": len(triples),
         "exhaustive": True,
         "domain_rows": len(ROWS),
+        "quad_trees": sum(1 for _, o in items if o == "quad"),
         "samples": [gexpr.pp(items[5][0]), gexpr.pp(items[700][0]), gexpr.pp(items[-1][0])],
     }
     run.coverage.update(obs)
